@@ -431,8 +431,9 @@ fn main() {
             let arr1100 = Value::Array((0..1100).map(|i| json!(i)).collect());
             let large: Vec<(Value, Vec<String>)> = if part == "huge" {
                 // one array beyond 100 000 elements: five- and six-digit indexes
-                let m = 100_003usize;
-                vec![(Value::Array((0..m).map(|i| json!(i % 10)).collect()), vec!["$[100000]".to_string(), "$[-1]".to_string(), "$[99998:100001]".to_string(), "$[-100003,99999,100002]".to_string()])]
+                // ... and one beyond 1 000 000 elements (seven-digit indexes; two events only - each carries the document)
+                vec![(Value::Array((0..100_003usize).map(|i| json!(i % 10)).collect()), vec!["$[100000]".to_string(), "$[-1]".to_string(), "$[99998:100001]".to_string(), "$[-100003,99999,100002]".to_string()]),
+                     (Value::Array((0..1_000_003usize).map(|i| json!(i % 10)).collect()), vec!["$[1000000,999999]".to_string(), "$[-2:]".to_string()])]
             } else if part == "text" {
                 // LARGE QUERY TEXT (C06/C13): thousands of blanks at every place the grammar allows them; a member name of
                 // 12 000 characters in shorthand and bracket notation (part textnames: TLC needs minutes per event)
@@ -451,6 +452,10 @@ fn main() {
                 (big_obj, vec![format!("$.k{:04}", size / 2 - 1), format!("$['k0000','k{:04}']", size / 2 - 1), "$[?@ == 6]".to_string(), "$..[?@ > 5]".to_string(), format!("$.k{:04}", size / 2), "$[?@ == 0 && @ != 1].x".to_string()]),
                 (big_mix, vec![format!("$[?length(@) > {}]", size + 1999), "$[?length(@) == 1200]".to_string(), format!("$['{}'][1]", long_name), format!("$..['{}'][::-1]", long_name),
                                "$.a[?@.a > 145].b[1]".to_string(), "$.a[100].b[-1]".to_string(), "$.a..b[0]".to_string(), "$.a[?count(@.b[*]) == 2 && @.a == 149]".to_string(), "$..a[149]".to_string()]),
+                // few distinct values, interleaved; slices with a negative step given with and without explicit bounds, one after the other
+                (Value::Array((0..size).map(|i| json!(i % 3)).collect()), vec!["$[?@ > 0]".to_string(), "$[?@ != 1]".to_string(), "$[?@ == 2 || @ == 0]".to_string(),
+                               "$[0::-1]".to_string(), "$[::-1]".to_string(), format!("$[:{}:-7]", size), "$[::-7]".to_string(), "$[0::-7]".to_string(), "$[::-7]".to_string(),
+                               format!("$[{}::-5]", size - 1), "$[::-5]".to_string(), "$[::5]".to_string(), "$[0::5]".to_string(), format!("$[0:{}:5]", size), "$[::5]".to_string()]),
                 (two_level, vec!["$[*][*]".to_string(), "$..*".to_string(), "$.*[0:]".to_string(), "$[*][?@ != null]".to_string(), "$..[0]".to_string(), "$[*][-1]".to_string()]),
                 (arr1100, vec!["$[1000]".to_string(), "$[999:1002]".to_string(), "$[-100]".to_string(), "$[?@ == 1000 || @ == 100 || @ == 10]".to_string(), "$[10,100,1000,1]".to_string(), "$..[1000]".to_string()]),
             ] };
